@@ -41,7 +41,7 @@ from ..slivers.network_service import NSLayer, ServiceType, MirrorDirection, Net
 from ..graph.slices.abc_asm import ABCASMPropertyGraph
 from ..graph.slices.networkx_asm import NetworkxASM
 from ..graph.slices.neo4j_asm import Neo4jASM
-from ..graph.abc_property_graph import ABCPropertyGraph, GraphFormat
+from ..graph.abc_property_graph import ABCPropertyGraph, GraphFormat, PropertyGraphQueryException
 from ..graph.resources.networkx_arm import NetworkXARMGraph
 from ..graph.networkx_property_graph import NetworkXGraphImporter
 from ..graph.networkx_property_graph_disjoint import NetworkXGraphImporterDisjoint
@@ -1007,6 +1007,16 @@ class ExperimentTopology(Topology):
         """
         self.graph_model.remove_cp_and_links(node_id=i.node_id)
 
+    def _in_model(self, e: ModelElement) -> bool:
+        """
+        Is this element still in the model (it may have gone with its parent)
+        """
+        try:
+            self.graph_model.get_node_properties(node_id=e.node_id)
+            return True
+        except PropertyGraphQueryException:
+            return False
+
     def prune(self, reservation_state):
         """
         Prune the topology of any elements with reservation_info.reservation_state matching
@@ -1061,13 +1071,16 @@ class ExperimentTopology(Topology):
 
         # need parents too
         for c, n in components:
-            self._prune_components(c, n)
+            if self._in_model(c):
+                self._prune_components(c, n)
 
         for ns in nss:
-            self._prune_ns(ns)
+            if self._in_model(ns):
+                self._prune_ns(ns)
 
         for i in interfaces:
-            self._prune_interface(i)
+            if self._in_model(i):
+                self._prune_interface(i)
 
 
 class SubstrateTopology(Topology):
